@@ -246,6 +246,46 @@ func c17Kind[K any](res *ev.Result, unit string, k *kinds.Kind[K], seed uint64, 
 			break
 		}
 	}
+	if ok && len(fresh) >= 8*64 {
+		// survivor pattern: rounds of "insert 64 new keys, delete 63 of them". What stays alive
+		// must be what the survivors need, not what their dead neighbours needed (leaves carved
+		// out of shared blocks, per-round caches): the limit is a function of the surviving content
+		rounds := min(len(fresh)/64, 64)
+		// the sliding window may have left some of these keys stored: start from none of them
+		for _, key := range fresh {
+			t.Delete(key)
+		}
+		before := liveHeap()
+		content := int64(0)
+		for rd := 0; rd < rounds; rd++ {
+			for j := 0; j < 64; j++ {
+				t.Insert(k.Clone(fresh[rd*64+j]), uint64(j))
+			}
+			keep := (rd * 7) % 64
+			for j := 0; j < 64; j++ {
+				if j != keep {
+					t.Delete(fresh[rd*64+j])
+				}
+			}
+			content += int64(c17KeyLen(k, fresh[rd*64+keep], k.ID(fresh[rd*64+keep])))
+		}
+		after := liveHeap()
+		for _, key := range fresh {
+			t.Delete(key)
+		}
+		delta := int64(after) - int64(before)
+		limit := int64(c17EmptySlack) + 8*content + 128*int64(rounds)
+		res.Evaluations += int64(rounds * 127)
+		res.Count("ops_survivor_pattern", int64(rounds*127))
+		res.Max("max_heap_delta_bytes_survivor_pattern", delta)
+		if delta > limit {
+			ok = false
+			res.Violate(ev.Violation{Prop: "C17", Kind: k.Name, Unit: unit,
+				What:     fmt.Sprintf("memory kept after %d rounds of (insert 64 keys, delete 63 of them) depends on the deleted neighbours, not on the %d surviving keys", rounds, rounds),
+				Expected: fmt.Sprintf("<= %d bytes (64 KiB + 8 x %d bytes of surviving keys + 128 B per survivor)", limit, content),
+				Observed: fmt.Sprintf("%d bytes: %d -> %d", delta, before, after)})
+		}
+	}
 	if g := runtime.NumGoroutine(); ok && g > goroutines0+2 {
 		ok = false
 		res.Violate(ev.Violation{Prop: "C17", Kind: k.Name, Unit: unit,
